@@ -1,7 +1,9 @@
 import LinOp.C13.Proofs
+import LinOp.C13.ProofsSem
 import LinOp.C13.Examples
 import LinOp.Generated.C13Table
 import LinOp.Generated.C13PTable
+import LinOp.Generated.C13Sites
 /-!
 C13 — no operation mutates caller-owned tensors or an existing operator's matrix.  Property theorems only.
 
@@ -82,5 +84,101 @@ theorem repo_functions_safe_modulo_known :
   have h := generatedP_obligations_ok
   rw [List.all_eq_true] at h
   exact analyse_sound _ _ generatedP_table_ok p.1 fn p.2 hf (h p hp)
+
+/-! ### Extension session 5 — storage semantics -/
+
+/-- **A view of a view aliases the base** (all tables, states, variable numberings): after
+`y = x.view(…); z = y.view(…)` every storage `z` reaches is a storage `x` reached before. -/
+theorem view_of_view_aliases (Φ : List Fn) (x y z : Var) (st st' : State)
+    (h : Exec Φ (.seq (.assign y (.view x)) (.assign z (.view y))) st st') :
+    ∀ s ∈ st'.env z, s ∈ st.env x :=
+  view_of_view_aliases_aux h
+
+/-- … and therefore an in-place write through a view of a view of *any* formal is not `Safe`
+(any arity `k`, any formal `x < k`, any temporaries `y z`, any table). -/
+theorem view_of_view_write_unsafe (Φ : List Fn) (k : Nat) (x y z : Var) (hx : x < k) :
+    ¬ Safe Φ ⟨k, .seq (.seq (.assign y (.view x)) (.assign z (.view y))) (.write z)⟩ [] :=
+  view_of_view_write_unsafe_aux Φ k x y z hx
+
+/-- **`clone()` breaks the alias**: the storages of a `fresh` value did not exist before the
+assignment (so they belong to no caller tensor), and `y = <clone>; y.op_()` is `Safe` for every
+arity, variable numbering and table — directly from the semantics, not through the analysis. -/
+theorem clone_breaks_alias (Φ : List Fn) (k : Nat) (y : Var) :
+    (∀ st st', Exec Φ (.assign y .fresh) st st' → ∀ s ∈ st'.env y, st.n ≤ s) ∧
+    Safe Φ ⟨k, .seq (.assign y .fresh) (.write y)⟩ [] :=
+  ⟨fun _ _ h => fresh_is_new h, clone_then_write_safe_aux Φ k y⟩
+
+/-- **The analysis is monotone** (all statements incl. loops, branches and calls, all summaries):
+more taint on entry (every variable's root set, the written set, the returned set — `LeA`) gives
+more taint on exit.  Consequently dropping a root on entry can only hide writes, never invent them. -/
+theorem analysis_monotone (Sg : List Summary) (s : Stmt) (a b : AState) (h : LeA a b) :
+    LeA (analyse Sg s a) (analyse Sg s b) :=
+  analyse_mono Sg s a b h
+
+example : LeA (entryA 1) ⟨[[0, 1], [1]], [1], [], true⟩ ∧ ¬ LeA ⟨[[0, 1], [1]], [1], [], true⟩ (entryA 1) := by
+  refine ⟨⟨?_, by simp [entryA], by simp [entryA]⟩, ?_⟩
+  · intro x p hp
+    rw [look_entryA] at hp
+    by_cases hx : x < 1
+    · have : x = 0 := by omega
+      subst this
+      simp at hp
+      subst hp
+      simp [look]
+    · simp [hx] at hp
+  · intro h
+    have := h.2.1 1 (by simp)
+    simp [entryA] at this
+
+/-- **End to end: verdict clean ⇒ snapshots equal.**  If the table conforms to its summaries and the
+summary of `f` mutates only `allowed` formals, then for *every* execution of `f` (any aliasing of the
+arguments, any nondeterministic choice, any recursion depth / loop count) and every pair of heaps
+`h`, `h'` that differ at most on the storages the execution wrote (`HeapFrame`): every storage that
+existed on entry and is not reachable from an allowed formal holds the same value afterwards — in
+particular every storage reachable from a caller tensor (`P x`) when `allowed = []`. -/
+theorem no_caller_root_written_implies_snapshot_equal {α : Type} (Sg : List Summary) (Φ : List Fn)
+    (hT : tableOK Sg Sg Φ = true) (f : Nat) (fn : Fn) (allowed : List Nat) (hf : Φ[f]? = some fn)
+    (hm : mutsWithin Sg f allowed = true) (P : Var → List Nat) (n0 : Nat) (st' : State)
+    (hP : ∀ x s, s ∈ P x → s < n0) (hE : Exec Φ fn.body ⟨entry fn.nparams P, n0, [], []⟩ st')
+    (h h' : Nat → α) (hfr : HeapFrame h h' st'.w) :
+    ∀ s, s < n0 → (∀ p ∈ allowed, s ∉ entry fn.nparams P p) → h' s = h s :=
+  snapshot_equal_of_safe (analyse_sound Sg Φ hT f fn allowed hf hm) P n0 st' hP hE h h' hfr
+
+/-- the hypotheses are satisfiable with a run that really writes (a clone) and a heap that really changes -/
+example : ∃ (st' : State) (h h' : Nat → Nat),
+    Exec Examples.table Examples.writeClone.body ⟨entry 1 Examples.P0, 1, [], []⟩ st' ∧
+    st'.w = [1] ∧ HeapFrame h h' st'.w ∧ h' 1 ≠ h 1 ∧ h' 0 = h 0 := by
+  have e1 : Exec Examples.table (.assign 1 .fresh) ⟨entry 1 Examples.P0, 1, [], []⟩ _ :=
+    Exec.assign _ 1 .fresh [1] 2 ⟨by simp, by intro s hs; right; simp at hs; subst hs; simp [Rhs.mayFresh]⟩
+  have e2 := Exec.seq _ _ _ _ _ e1 (Exec.write _ 1)
+  refine ⟨_, fun _ => 0, fun s => if s = 1 then 7 else 0, e2, by simp [upd], ?_, by simp, by simp⟩
+  intro s hs
+  simp [upd] at hs
+  simp [hs]
+
+/-- **C13 on today's source, heap form**: for every obligation of the regenerated table and every
+execution, all caller storages outside the `out=` formals are bitwise unchanged. -/
+theorem repo_functions_snapshot_equal {α : Type} :
+    ∀ p ∈ Generated.C13.obligations, ∀ fn, Generated.C13.table[p.1]? = some fn →
+      ∀ (P : Var → List Nat) (n0 : Nat) (st' : State), (∀ x s, s ∈ P x → s < n0) →
+      Exec Generated.C13.table fn.body ⟨entry fn.nparams P, n0, [], []⟩ st' →
+      ∀ (h h' : Nat → α), HeapFrame h h' st'.w →
+      ∀ s, s < n0 → (∀ q ∈ p.2, s ∉ entry fn.nparams P q) → h' s = h s := by
+  intro p hp fn hf P n0 st' hP hE h h' hfr
+  exact snapshot_equal_of_safe (repo_functions_safe_partial p hp fn hf) P n0 st' hP hE h h' hfr
+
+/-- **No write statement is dropped between the source and the table** (per run, `decide +kernel`): for every
+function in which the independent `ast` census (`harness/extract/c13_sites.py`: `x.op_(…)`, `out=`, index
+assignment / `del x[i]`, augmented assignment) found in-place sites that the translator turned into writes, the
+emitted (slimmed) IR of that function — the one `repo_functions_safe_partial` is about — contains at least as
+many `write` / mutating-`call` operations (`countW`); the census total is pinned next to it. -/
+theorem generated_sites_ok :
+    siteRowsOK Generated.C13.siteRows = true ∧
+    (Generated.C13.siteRows.map (fun r => r.2.1)).sum = Generated.C13.siteTotal :=
+  ⟨Generated.C13.site_rows_ok, Generated.C13.site_total_ok⟩
+
+/-- `siteRowsOK` really rejects a row with more sites than IR writes -/
+example : siteRowsOK [(0, 2, countW [] (.seq (.write 0) (.assign 1 .fresh)))] = false ∧
+    siteRowsOK [(0, 2, countW [] (.seq (.write 0) (.ifStar (.write 1) .skip)))] = true := by decide
 
 end LinOp.C13
